@@ -25,6 +25,11 @@ SEED = os.environ.get("SEED_DIR", "/tmp/seed")
 ROUND = os.environ.get("SEED_ROUND", "r3")            # r3 | r5
 CONFIRM = os.environ.get("SEED_CONFIRM", "/tmp/r3_confirm.txt")
 # round 5: checks that alarmed when the refactoring was first run (before the rules were generalised), for the record
+FIRST_CONTACT_R7 = {
+    "C01-A": "C01 C08", "C01-B": "C15", "C02-A": "C02 C03 C06 C08", "C02-B": "C02 C03 C10", "C03-B": "C02 C03 C10", "C05-B": "C02", "C06-A": "C06 C07",
+    "C06-B": "C02 C03 C06 C08 C10", "C07-A": "C07", "C07-B": "C07", "C09-A": "C01 C08", "C09-B": "C13 C14", "C10-A": "C06", "C13-A": "C13", "C13-B": "C13 C14",
+    "C14-A": "C13", "C15-A": "C01", "C17-B": "C17", "C18-B": "C02 C03 C06 C08 C10", "C19-A": "C13 C14", "C19-B": "C19", "C20-A": "C20",
+}
 FIRST_CONTACT_R5 = {
     "C01-A": "C01 C15", "C02-B": "C06", "C04-A": "C04 C16", "C05-A": "C05 C16", "C06-B": "C06", "C07-A": "C06 C07", "C07-B": "C07",
     "C08-A": "C02 C03 C06 C08", "C08-B": "C20", "C09-A": "C08", "C09-B": "C01", "C10-A": "C02 C10", "C11-A": "C11", "C12-A": "C20",
@@ -110,6 +115,11 @@ def main():
                                     "demo_exit_clean": c[0], "demo_exit_patched": c[1], "suite_with_patch": c[2]},
                 "clean_for": clean, "undecided_for": und, "false_alarms_now": alarm,
             }
+            if ROUND == "r7":
+                meta["author"] = meta["author"].replace("a behaviour-preserving refactoring", "a behaviour-preserving change of whatever kind a maintainer makes on a normal working day (idioms, data structures, recursion <-> iteration, guard clauses, library calls)")
+                meta["false_alarms_at_first_contact"] = FIRST_CONTACT_R7.get("%s-%s" % (d, x), "").split()
+                if d == "C17":
+                    meta["isolation_note"] = "the sub-agent reported having read the title lines of the earlier C17 seeds under /verif/seeded (it was told to use nothing from /verif); kept, with this note"
             if ROUND == "r6":
                 meta["author"] = meta["author"].replace("a behaviour-preserving refactoring", "a behaviour-preserving refactoring of the extract / move / wrap family (helpers, small classes, records, generator helpers)")
             if ROUND == "r5":
